@@ -96,9 +96,38 @@ pub fn eval_tree<C: Context<NumericTypes = DefaultNumericTypes>>(t: &Node, c: &C
     lift(guard(|| t.eval_with_context(c)))
 }
 
+/// An empty context with a past: the given names and the usual assignment targets were bound (to a tuple, a boolean, a
+/// string — types the programs rarely assign to them first), then everything was cleared.
+pub fn used_then_cleared(names: &[&str], whole: bool) -> Ctx {
+    let mut c = Ctx::new();
+    let usual = ["a", "b", "c", "d", "x", "y", "z", "t", "u", "v", "w", "q", "n", "s", "r", "i", "j", "k", "v1", "v2", "w1", "w2", "x1", "total"];
+    for (i, n) in names.iter().chain(usual.iter()).enumerate() {
+        let v = match i % 3 {
+            0 => Value::Tuple(vec![Value::Int(1), Value::Boolean(false)]),
+            1 => Value::Boolean(true),
+            _ => Value::String("before".into()),
+        };
+        let _ = c.set_value(n.to_string(), v);
+    }
+    if whole {
+        c.clear();
+    } else {
+        c.clear_variables();
+    }
+    c
+}
+
 /// Builds a real HashMapContext holding exactly what the model holds. Recording functions log to `log`.
 pub fn ctx_from_model(m: &Model, log: &Log) -> Ctx {
-    let mut c = Ctx::new();
+    // one time in three the context has a past: names were bound to values of other types and then cleared, which leaves
+    // an empty context like a new one (a function of the model, so that a replay builds the same context)
+    let h = m.vars.iter().fold(m.vars.len() as u64 + 7, |h, (k, _)| h.wrapping_mul(31).wrapping_add(k.len() as u64 + k.bytes().next().unwrap_or(0) as u64));
+    let mut c = if h % 3 == 0 {
+        let names: Vec<&str> = m.vars.keys().map(|k| k.as_str()).collect();
+        used_then_cleared(&names, h / 3 % 2 == 0)
+    } else {
+        Ctx::new()
+    };
     for (k, v) in &m.vars {
         c.set_value(k.clone(), v.to_value())
             .expect("set_value into a fresh context cannot fail");
